@@ -16,7 +16,7 @@ from . import coqlit as L
 from .core import Relation, err_kind
 
 PROP = "C18"
-CLAIMED = False
+CLAIMED = True
 COQ_MODULES = ["C18_Check", "C18_Proofs", "C18_ProofsCheck"]
 PROPERTY_MODULE = "C18_Property"
 # Coq's primitive binary64 type and operations are printed by Print Assumptions under "Axioms:" for the two
